@@ -178,6 +178,14 @@ def badLabel (a : String) : Bool :=
   let l := lowerBs (decodeHexAtom a)
   l == bs "inf" || l == bs "nan" || l == bs "without"
 
+/-- the string contains U+FFFD (bytes EF BF BD) -/
+def hasReplacementChar : Bytes → Bool
+  | 0xEF :: 0xBF :: 0xBD :: _ => true
+  | _ :: rest => hasReplacementChar rest
+  | [] => false
+
+def atomHasRC (a : String) : Bool := hasReplacementChar (decodeHexAtom a)
+
 def durLitTruncated (bitsHex : String) : Bool :=
   match natOfHex? bitsHex with
   | none => false
@@ -216,8 +224,14 @@ def SExp.features : SExp → List String
       | [.atom "mat", _, .atom n, _] => if subMs n then ["submillisecond-duration"] else []
       | [.atom "sub", _, .atom n, _, .atom m, _, _, _] => if subMs n || subMs m then ["submillisecond-duration"] else []
       | [.atom "num", .atom b, .atom "1"] => if durLitTruncated b then ["duration-literal-truncated"] else []
-      | .atom "grp" :: ls => if ls.any (fun | .atom a => badLabel a | _ => false) then ["label-lexed-as-keyword"] else []
-      | .atom "l" :: ls => if ls.any (fun | .atom a => badLabel a | _ => false) then ["label-lexed-as-keyword"] else []
+      | .atom "grp" :: ls =>
+        (if ls.any (fun | .atom a => badLabel a | _ => false) then ["label-lexed-as-keyword"] else []) ++
+        (if ls.any (fun | .atom a => atomHasRC a | _ => false) then ["replacement-char-in-string"] else [])
+      | .atom "l" :: ls =>
+        (if ls.any (fun | .atom a => badLabel a | _ => false) then ["label-lexed-as-keyword"] else []) ++
+        (if ls.any (fun | .atom a => atomHasRC a | _ => false) then ["replacement-char-in-string"] else [])
+      | [.atom "m", _, .atom n, .atom v] => if atomHasRC n || atomHasRC v then ["replacement-char-in-string"] else []
+      | [.atom "str", .atom v] => if atomHasRC v then ["replacement-char-in-string"] else []
       | [.atom "offe", .list (.atom "dur" :: .atom "2b" :: _ :: .atom "-" :: _)] => ["offset-expr-sign-dropped"]
       | [.atom "offe", .list [.atom "dur", .atom _, .atom "0", .list l, _]] =>
         if startsWithParen 64 (.list l) then [] else ["offset-expr-sign-dropped"]
@@ -229,7 +243,7 @@ def featuresEach : List SExp → List String
  end
 
 def kindOrder : List String :=
-  ["inf-literal-unary-plus", "label-lexed-as-keyword", "offset-expr-sign-dropped", "duration-literal-truncated", "submillisecond-duration"]
+  ["inf-literal-unary-plus", "label-lexed-as-keyword", "replacement-char-in-string", "offset-expr-sign-dropped", "duration-literal-truncated", "submillisecond-duration"]
 
 def kindOf (a : SExp) : String :=
   let fs := a.features
